@@ -12,5 +12,6 @@ CONSTANTS
 INVARIANTS
   JunkSafeInv
   OthersUntouched
+  SpliceConsistent
 PROPERTIES
   JunkSafe
